@@ -135,6 +135,10 @@ def run_tlc(spec, cfg, workdir, *, workers=None, simulate=None, depth=None, seed
     java.append("-Xmx" + (heap or os.environ.get("VERIF_TLC_HEAP", "6g")))
     if deque:
         java.append("-Dtlc2.tool.queue.IStateQueue=StateDeque")
+    # TLC unpacks its standard modules into java.io.tmpdir on every start: keep that inside the scratch dir
+    jtmp = os.path.join(workdir, "jtmp")
+    os.makedirs(jtmp, exist_ok=True)
+    java.append("-Djava.io.tmpdir=" + jtmp)
     cmd = ["timeout", str(int(timeout))] + java + [
         "-cp", "/opt/veriftools/tla/tla2tools.jar:/opt/veriftools/tla/CommunityModules-deps.jar",
         "tlc2.TLC", "-workers", str(workers), "-metadir", meta, "-config", cfg]
